@@ -73,7 +73,8 @@ def fnOK (parse : String → Option Term) (f : Gen.DigestFn) (tag dflt : String)
 model assumes: switch on the order version, one `WriteElements` per case with the element widths the model
 uses, `isSidecar` defined as `SidecarTicket != nil`, unknown version = error, SHA-256 of the buffer;
 `nonce := o.Nonce()`, `minChanAmt := uint64(MinUnitsMatch.ToSatoshis())`, units ↔ satoshis by the base
-unit, no order term assigned after the literals, channel-type / node-tier default clauses are errors. -/
+unit, no order term assigned after the literals, no local re-assigned except by the two enum switches,
+channel-type / node-tier default clauses are errors. -/
 theorem C12_code_shape_as_modelled :
     fnOK parseAskExpr Gen.askDigest "a.Kit.Version"
       "return result, fmt.Errorf(\"unknown version %d\", a.Kit.Version)" = true ∧
@@ -86,6 +87,8 @@ theorem C12_code_shape_as_modelled :
     Gen.supplyFromSats = ["return SupplyUnit(uint64(sats) / uint64(BaseSupplyUnit))"] ∧
     Gen.submitFieldAssigns.map (·.1) =
       ["details.AllowedNodeIds", "details.NotAllowedNodeIds", "rpcRequest.Details", "rpcRequest.Details"] ∧
+    Gen.submitVarAssigns.map (·.1) =
+      ["nodeAddrs", "channelType", "channelType", "channelType", "auctionType", "auctionType"] ∧
     Gen.submitChannelTypeDefault.length = 1 ∧ Gen.marshallNodeTierDefault.length = 1 ∧
     Gen.submitAuctionTypeDefault = [] := by decide
 
